@@ -245,6 +245,10 @@ func serve(conn net.Conn, c Case, spec opSpec, msg string, sv *served) {
 					id = nil
 				case "swap":
 					id = req.BatchItem[len(req.BatchItem)-1-k].UniqueBatchItemID
+				case "short":
+					id = []byte{byte(k + 1)}
+				case "long":
+					id = []byte{9, 8, 7, 6, 5, 4, 3, 2, byte(k + 1)}
 				}
 			}
 			resp.BatchItem = append(resp.BatchItem, buildItem(class, reqOp, spec.good(), id, msg))
